@@ -117,9 +117,8 @@ def run(argv):
                 fid = open(filename, 'r')
                 for line in fid:
                     extra += line.split()
-            except:
-                if not os.path.isfile(filename):
-                    verif.util.error("Could not read %s" % filename)
+            except Exception:
+                verif.util.error("Could not read %s" % filename)
         i = i + 1
 
     argv = argv + extra
